@@ -183,7 +183,7 @@ func (e *Exec) assumeGlobal(t Term) { e.sc.Assert(t) }
 
 func (e *Exec) oblige(st *State, name, kind string, props []string, goal Term, pos token.Pos) *Obligation {
 	if st.dead || st.pc.S == "false" || goal.S == "true" {
-		if goal.S != "true" || kind == "post" || kind == "lemma" || ((kind == "callsite" || kind == "returnsite") && !st.dead && st.pc.S != "false") {
+		if goal.S != "true" || kind == "post" || kind == "lemma" || kind == "frame" || ((kind == "callsite" || kind == "returnsite") && !st.dead && st.pc.S != "false") {
 			// still record trivially true post obligations so that counts are stable
 		} else {
 			return nil
